@@ -171,21 +171,24 @@ def render_inc(sl):
         chunk = list(enumerate(sl))[part * per:(part + 1) * per]
         for i, s in chunk:
             if s["form"] == "p2":
-                call = "PARSENUM(&x, s)"
+                call = "PARSENUM(&x, ARG)"
             elif s["form"] == "p4":
-                call = "PARSENUM(&x, s, %s, %s)" % (s["cmin"], s["cmax"])
+                call = "PARSENUM(&x, ARG, %s, %s)" % (s["cmin"], s["cmax"])
             elif s["form"] == "ex4":
-                call = "PARSENUM_EX(&x, s, %d, %d)" % (s["base"], s["trailing"])
+                call = "PARSENUM_EX(&x, ARG, %d, %d)" % (s["base"], s["trailing"])
             else:
-                call = "PARSENUM_EX(&x, s, %s, %s, %d, %d)" % (s["cmin"], s["cmax"], s["base"], s["trailing"])
+                call = "PARSENUM_EX(&x, ARG, %s, %s, %d, %d)" % (s["cmin"], s["cmax"], s["base"], s["trailing"])
             if s["kind"] == "f":
                 init, rep = "0", ("report_f32(rc, x)" if s["width"] == 32 else "report_f64(rc, x)")
             elif s["kind"] == "u":
                 init, rep = "0x5a", "report_u(rc, (uintmax_t)x)"
             else:
                 init, rep = "0x5a", "report_s(rc, (intmax_t)x)"
-            o.append("static void site_%d(const char * s) { %s x = %s; int rc = %s; %s; }"
-                     % (i, s["ctype"], init, call, rep))
+            # the string argument is an expression with a side effect (as in PARSENUM(&n, *argv++)): its
+            # first evaluation yields the case's string, any further one a text that is no number
+            o.append("static void site_%d(const char * s) { const char * a_[3] = { s, \"@again@\", \"@again@\" }; int i_ = 0; "
+                     "%s x = %s; int rc = %s; %s; }"
+                     % (i, s["ctype"], init, call.replace("ARG", "a_[i_ < 2 ? i_++ : 2]"), rep))
         o.append("const struct site sites_part%d[] = {" % part)
         for i, s in chunk:
             o.append("\t{ \"%s\", site_%d }," % (s["desc"], i))
